@@ -17,7 +17,27 @@ from props.c02 import collect_simple
 from props import c01
 
 LEVEL = 'model_checking'
-FINISH = ['respond', 'raw-writer', 'upgrade', 'drop']
+
+
+class FailingReader(Opaque):
+    """R: Read that delivers `good` bytes and then fails with ErrorKind::Other"""
+
+    def __init__(self, data, good):
+        Opaque.__init__(self, 'FailingReader')
+        self.data = data
+        self.good = good
+        self.pos = 0
+
+    def read(self, it, buf):
+        from mirsym.models import io_error
+        if self.pos >= self.good:
+            return Err(io_error('Other'))
+        buf.buf.arr = z3.Store(buf.buf.arr, buf.off, self.data[self.pos])
+        self.pos += 1
+        return Ok(bv(1))
+
+
+FINISH = ['respond', 'raw-writer', 'upgrade', 'drop', 'panic', 'respond-failing-reader']
 READS = ['none', 'part', 'all']
 
 
@@ -73,6 +93,19 @@ def run(L, rep, tier, seed):
                     cv.respond(cell.v, cv.response('data', 404 if i else 200, b'B%d' % i))
                 elif f == 'drop':
                     it.drop_value(cell.v)
+                elif f == 'panic':
+                    # the handler panics while holding the request: it is dropped during unwinding
+                    ctx.data['panicking'] = True
+                    try:
+                        it.drop_value(cell.v)
+                    finally:
+                        ctx.data['panicking'] = False
+                elif f == 'respond-failing-reader':
+                    # the response body reader fails (not a client-closing error) after the head was printed
+                    from props.respcommon import RespRun
+                    rdr = FailingReader([bv(0x41, 8), bv(0x42, 8)], 1)
+                    resp = it.run_fn(find_fn(it.prog, 'Response', 'new'), [Struct('StatusCode', [bv(200, 16)]), VecObj([]), rdr, Some(bv(2)), NONE()])
+                    r = cv.respond(cell.v, resp)
                 elif f == 'raw-writer':
                     from mirsym.models import writer_write
                     w = it.run_fn(find_fn(it.prog, 'Request', 'into_writer'), [cell.v])
@@ -118,7 +151,14 @@ def run(L, rep, tier, seed):
         interim = [r.get('status') for r in (rs or []) if r.get('status') == 100]
         exp = []
         for i in range(n):
-            exp.append({'respond': 404 if i else 200, 'drop': 500, 'raw-writer': 299, 'upgrade': 101}[fins[i]])
+            exp.append({'respond': 404 if i else 200, 'drop': 500, 'panic': 500, 'raw-writer': 299, 'upgrade': 101,
+                        'respond-failing-reader': 200}[fins[i]])
+        if 'respond-failing-reader' in fins[:n]:
+            # the truncated message cannot be split reliably: count status lines in the raw output instead
+            raw = out or b''
+            nstat = raw.count(b'HTTP/1.1 ') + raw.count(b'HTTP/1.0 ')
+            ctx.check_always(z3.BoolVal(nstat == n + len(interim)), 'no-second-response-after-a-failed-one', lambda m: dict(sc, status_lines=nstat))
+            return True
         ctx.check_always(z3.BoolVal(rs is not None and finals == exp), 'exactly-one-final-response-per-request-in-order',
                          lambda m: dict(sc, got=[r.get('status') for r in (rs or [])], expected=exp))
         return True
